@@ -1,8 +1,10 @@
 ---------------------------- MODULE PageCodecMC ----------------------------
 (* Bounded instance of PageCodec for C12.  TLC enumerates node shapes from *)
 (* abstract parameters (kind, cell count, value-size class per cell,       *)
-(* tombstone mask, insertion order, cells left behind by a split, sibling  *)
-(* flags, LSN class, key class) and short sequences of Update / DropCache  *)
+(* tombstone mask, insertion order, cells left behind by a split, a cell   *)
+(* whose value was replaced through updateCell by a longer / shorter /     *)
+(* equally long one, sibling flags, LSN class, key class) and short        *)
+(* sequences of Update / DropCache                                         *)
 (* / Fetch over a few adjacent pages.  Every explored transition that is a *)
 (* Fetch is printed with the whole action path and the expected register   *)
 (* content; harness/cmd/codec builds the concrete nodes and runs the path  *)
@@ -20,6 +22,7 @@ CONSTANTS Pages,        \* page numbers used
           LsnClasses,   \* decimal strings (64-bit values do not fit TLC integers)
           KeyClasses,   \* {"small", "wide"}: magnitude of keys and child offsets
           StaleOpts,    \* subset of BOOLEAN: node keeps cells moved away by a split
+          UpdFrom,      \* value sizes a cell had before it was replaced through updateCell ({} = no updated cells)
           MaxOps, MaxUpd, EmitOn
 
 VARIABLES nops, nupd, hist
@@ -73,18 +76,28 @@ InsSets(n) == {PermPat(pp, n) : pp \in PermPats}
 LeafStale(n) == IF n >= 1 /\ 2 * n + 1 <= LeafCap THEN StaleOpts ELSE StaleOpts \ {TRUE}
 IntStale(n) == IF n >= 1 /\ 2 * n <= IntCap THEN StaleOpts ELSE StaleOpts \ {TRUE}
 
-LeafNode(n, c, i, st, sb, l, k) ==
-  [kind |-> "leaf", n |-> n, cells |-> c, ins |-> i, insp |-> "", stale |-> st, sib |-> sb, lsn |-> l, keys |-> k]
+\* upd = [pos, from]: the cell of rank pos (0 = none) was first stored with a
+\* value of `from` bytes and then replaced, through btreeNode.updateCell, by
+\* the value of cells[pos].sz bytes the descriptor shows (longer, shorter,
+\* same length, 0 <-> n all arise from the product).  Only for nodes filled
+\* in ascending key order, like splits: updateCell addresses the slot by
+\* position, which is the cell with that key only under identity offsets.
+NoUpd == [pos |-> 0, from |-> 0]
+UpdPos(n) == IF n = 0 THEN {} ELSE {1, (n + 1) \div 2, n}
+UpdOpts(n, i) == {NoUpd} \cup (IF i = PermPat("id", n) THEN {[pos |-> p, from |-> f] : p \in UpdPos(n), f \in UpdFrom} ELSE {})
+
+LeafNode(n, c, i, st, u, sb, l, k) ==
+  [kind |-> "leaf", n |-> n, cells |-> c, ins |-> i, insp |-> "", stale |-> st, upd |-> u, sib |-> sb, lsn |-> l, keys |-> k]
 IntNode(n, ip, st, l, k) ==
-  [kind |-> "internal", n |-> n, cells |-> <<>>, ins |-> <<>>, insp |-> ip, stale |-> st, sib |-> "--", lsn |-> l, keys |-> k]
+  [kind |-> "internal", n |-> n, cells |-> <<>>, ins |-> <<>>, insp |-> ip, stale |-> st, upd |-> NoUpd, sib |-> "--", lsn |-> l, keys |-> k]
 
 \* StoreSome(p): a store of any enumerated node at page p.  The node set is
 \* never materialised; TLC walks the parameter space lazily.
 StoreSome(p, H(_)) ==
   \/ \E n \in LeafCounts : \E c \in CellSets(n), i \in InsSets(n), sb \in SibOpts,
                                 l \in LsnClasses, k \in KeyClasses :
-      \E st \in (IF i = PermPat("id", n) THEN LeafStale(n) ELSE LeafStale(n) \ {TRUE}) :
-        Update(p, LeafNode(n, c, i, st, sb, l, k)) /\ H(LeafNode(n, c, i, st, sb, l, k))
+      \E st \in (IF i = PermPat("id", n) THEN LeafStale(n) ELSE LeafStale(n) \ {TRUE}), u \in UpdOpts(n, i) :
+        Update(p, LeafNode(n, c, i, st, u, sb, l, k)) /\ H(LeafNode(n, c, i, st, u, sb, l, k))
   \/ \E n \in IntCounts : \E ip \in (IF n >= 2 THEN IntPerms ELSE {"append"}), l \in LsnClasses, k \in KeyClasses :
       \E st \in (IF ip = "append" THEN IntStale(n) ELSE IntStale(n) \ {TRUE}) :
         Update(p, IntNode(n, ip, st, l, k)) /\ H(IntNode(n, ip, st, l, k))
